@@ -209,6 +209,7 @@ def run(ck):
     fn = m.func("IRCFG._extract_dst")
     _extract_dst_rules(ck, m, fn)
     _trackback_rules(ck, m, m.func("IRCFG.dst_trackback"))
+    _dst_rewrite_rules(ck)
 
 
 def _extract_dst_rules(ck, m, fn):
@@ -452,3 +453,127 @@ def _trackback_rules(ck, m, fn):
           "an identifier the assignment block assigns must be replaced by its source in the next worklist: %s" % detail)
     ck.ob("R3", "IRCFG.dst_trackback:unassigned-id-kept", keeps, m.where(fn),
           "an identifier the assignment block does not assign must stay on the worklist for the earlier blocks: %s" % detail)
+
+
+def _dst_rewrite_rules(ck):
+    """R6: an assignment's destination stays a register or a memory cell.  Lifters post-process what the semantics produced with
+    `replace_expr(table)`, the table mapping a register to a constant (PC -> the instruction's address, MIPS $zero -> 0).  Applied to
+    a destination, such a table turns the destination `reg` itself into an integer: it may be applied to a destination only where
+    the destination is known to differ from every register the table maps to a constant (`if dst != self.pc`, `... if expr !=
+    self.pc else expr`, an early return).  Sites: `dst = dst.replace_expr(T)` for a `dst` taken from `.dst`, the destination
+    function of `modify_exprs`, the first argument of ExprAssign."""
+    from sa.astutil import Resolver
+    from sa.cfg import CFG
+    from sa.facts import guard_facts
+    ck.rule("R6", "a register-to-constant substitution reaches an assignment destination only where the destination is known not to be that register", floor=2)
+    n_sites = 0
+    for rel in [r for r in ck.repo.pyfiles("miasm/arch") if r.endswith("/sem.py")]:
+        m = ck.repo.mod(rel)
+        for q, fn in sorted(m.funcs.items()):
+            if not any(isinstance(c, ast.Call) and isinstance(c.func, ast.Attribute) and c.func.attr == "replace_expr" for c in ast.walk(fn)):
+                continue
+            if any(isinstance(x, (ast.FunctionDef,)) and x is not fn and any(y is fn for y in ast.walk(x)) for x in []):
+                continue
+            res = Resolver(fn)
+
+            def int_keys(tab):
+                """keys of the substitution table mapped to a constant; None when the table is not a resolvable dict display"""
+                t = tab
+                if isinstance(t, ast.Name):
+                    t = res.unique_def(t.id)
+                if not isinstance(t, ast.Dict):
+                    return None
+                out = []
+                for k, v in zip(t.keys, t.values):
+                    vv = res.expand_node(v)
+                    if isinstance(vv, ast.Call) and (dotted(vv.func) or "").split(".")[-1] == "ExprInt":
+                        out.append(norm(k))
+                return out
+
+            def check_function_like(node, params_body, where, label):
+                """node: Lambda or FunctionDef used as destination rewriter; every replace_expr(T) applied to its parameter needs param != k"""
+                p0 = node.args.args[0].arg if node.args.args else None
+                if p0 is None:
+                    return
+                if isinstance(node, ast.Lambda):
+                    # body: E.replace_expr(T) [if test else other]
+                    b = node.body
+                    guards = []
+                    while isinstance(b, ast.IfExp):
+                        t = norm(b.test)
+                        inner_true = any(isinstance(c, ast.Call) and isinstance(c.func, ast.Attribute) and c.func.attr == "replace_expr" for c in ast.walk(b.body))
+                        guards.append((t, inner_true))
+                        b = b.body if inner_true else b.orelse
+                    calls = [c for c in ast.walk(node.body) if isinstance(c, ast.Call) and isinstance(c.func, ast.Attribute) and c.func.attr == "replace_expr"
+                             and norm(c.func.value) == p0 and c.args]
+                    for c in calls:
+                        ks = int_keys(c.args[0])
+                        if not ks:
+                            continue
+                        missing = []
+                        for k in ks:
+                            ok = any((t in ("%s != %s" % (p0, k), "%s != %s" % (k, p0)) and side) or (t in ("%s == %s" % (p0, k), "%s == %s" % (k, p0)) and not side)
+                                     for t, side in guards)
+                            if not ok:
+                                missing.append(k)
+                        report(where, label, missing, norm(c))
+                else:
+                    cfg = CFG(node)
+                    facts = guard_facts(cfg)
+                    for nd in cfg.nodes:
+                        if nd.ast is None:
+                            continue
+                        for c in [x for x in ast.walk(nd.ast) if isinstance(x, ast.Call) and isinstance(x.func, ast.Attribute) and x.func.attr == "replace_expr"
+                                  and norm(x.func.value) == p0 and x.args]:
+                            ks = int_keys(c.args[0])
+                            if not ks:
+                                continue
+                            f = facts.get(nd.id, frozenset())
+                            missing = [k for k in ks if not (("cmp", p0, "!=", k) in f or ("cmp", k, "!=", p0) in f)]
+                            report(where, label, missing, norm(c))
+
+            def report(where, label, missing, what):
+                nonlocal n_sites
+                n_sites += 1
+                ck.ob("R6", "%s:%s" % (q, label), not missing, where,
+                      "`%s` rewrites an assignment destination with a table that maps %s to a constant, without knowing that the destination is not "
+                      "that register: an instruction writing it gets an integer as destination" % (what[:60], missing))
+            local_defs = dict((x.name, x) for x in ast.walk(fn) if isinstance(x, ast.FunctionDef) and x is not fn)
+            # (a) dst = dst.replace_expr(T) for a dst taken from `.dst`
+            cfg0 = CFG(fn)
+            facts0 = guard_facts(cfg0)
+            for nd in cfg0.nodes:
+                a = nd.ast
+                if nd.kind == "stmt" and isinstance(a, ast.Assign) and isinstance(a.targets[0], ast.Name) and isinstance(a.value, ast.Call) and \
+                        isinstance(a.value.func, ast.Attribute) and a.value.func.attr == "replace_expr" and norm(a.value.func.value) == a.targets[0].id and a.value.args:
+                    name = a.targets[0].id
+                    from_dst = any(isinstance(d, ast.Attribute) and d.attr == "dst" for d in res.all_defs(name))
+                    if not from_dst:
+                        continue
+                    ks = int_keys(a.value.args[0])
+                    if not ks:
+                        continue
+                    f = facts0.get(nd.id, frozenset())
+                    missing = [k for k in ks if not (("cmp", name, "!=", k) in f or ("cmp", k, "!=", name) in f)]
+                    report(m.where(a), "dst-rewrite", missing, norm(a))
+            # (b) modify_exprs(mod_dst, mod_src) / (mod_dst=...)
+            for c in [x for x in ast.walk(fn) if isinstance(x, ast.Call) and isinstance(x.func, ast.Attribute) and x.func.attr == "modify_exprs"]:
+                fdst = c.args[0] if c.args else None
+                for k in c.keywords:
+                    if k.arg == "mod_dst":
+                        fdst = k.value
+                if fdst is None:
+                    continue
+                node = fdst if isinstance(fdst, ast.Lambda) else (local_defs.get(fdst.id) if isinstance(fdst, ast.Name) else None)
+                if node is not None:
+                    check_function_like(node, None, m.where(c), "modify_exprs:mod_dst")
+            # (c) ExprAssign(f(x.dst), ...) / ExprAssign(x.dst.replace_expr(T), ...)
+            for c in [x for x in ast.walk(fn) if isinstance(x, ast.Call) and (dotted(x.func) or "").split(".")[-1] == "ExprAssign" and x.args]:
+                d0 = c.args[0]
+                if isinstance(d0, ast.Call) and isinstance(d0.func, ast.Name) and d0.func.id in local_defs:
+                    check_function_like(local_defs[d0.func.id], None, m.where(c), "ExprAssign:dst")
+                elif isinstance(d0, ast.Call) and isinstance(d0.func, ast.Attribute) and d0.func.attr == "replace_expr" and d0.args:
+                    ks = int_keys(d0.args[0])
+                    if ks:
+                        report(m.where(c), "ExprAssign:dst", ks, norm(d0))
+    ck.ob("R6", "destination-rewrites-seen", n_sites >= 2, "miasm/arch", "fewer destination rewrites than on the pinned tree (%d)" % n_sites)
